@@ -33,7 +33,12 @@ fn once_body<const NV: usize, const NA: usize>(fast_start: bool, audio: bool) {
     let total = mp4h::sink(&w).total;
     let calls = mp4h::sink(&w).calls;
     assert!(mp4h::bytes_written(&w) == total, "byte count = bytes delivered to the sink");
-    assert!(total == FTYP_LEN + 8 + if NV + NA > 0 || audio || fast_start { 8 + total_payload::<NV, NA>() } else { 0 }, "file = ftyp + moov + mdat(header + payloads)");
+    let moov_len: u64 = if replay_mode() {
+        crate::native_mp4::parse(&mp4h::sink(&w).log).expect("well-formed file").top.iter().find(|t| &t.0 == b"moov").map(|t| t.2 as u64).unwrap()
+    } else {
+        8
+    };
+    assert!(total == FTYP_LEN + moov_len + if NV + NA > 0 || audio || fast_start { 8 + total_payload::<NV, NA>() } else { 0 }, "file = ftyp + moov + mdat(header + payloads)");
     assert!(mp4h::video_sample_count(&w) == NV as u64 && mp4h::audio_sample_count(&w) == NA as u64, "frame counts");
     // a second finalize, and any write after it, is refused and writes nothing
     let r2 = w.finalize(&c.track, None, kani::any());
